@@ -194,15 +194,16 @@ type UpReq struct {
 
 // Cell: one set of stub upstreams (fixed ports) whose content can be swapped per case.
 type Cell struct {
-	eph     bool
-	stubs   map[string]*Stub
-	cur     atomic.Value // *Cluster
-	mu      sync.Mutex
-	log     []UpReq
-	deadFd  int
-	deadPrt int
-	barMu   sync.Mutex
-	barLast time.Time
+	eph      bool
+	sameHost bool
+	stubs    map[string]*Stub
+	cur      atomic.Value // *Cluster
+	mu       sync.Mutex
+	log      []UpReq
+	deadFd   int
+	deadPrt  int
+	barMu    sync.Mutex
+	barLast  time.Time
 }
 
 type Stub struct {
@@ -424,7 +425,11 @@ func (s *Stub) peerInfo(cl *Cluster, n string) obj {
 	} else if n == "N1" {
 		ver = "1.2.0" // Ver(n) of AdminView.tla for an nsqd that is gone
 	}
-	return obj{"remote_address": "127.0.0.1:5" + n[1:], "hostname": n, "broadcast_address": "127.0.0.1",
+	host := n
+	if s.cell.sameHost && n == "N3" && port != s.cell.deadPrt {
+		host = "N2"
+	}
+	return obj{"remote_address": "127.0.0.1:5" + n[1:], "hostname": host, "broadcast_address": "127.0.0.1",
 		"tcp_port": port, "http_port": port, "version": ver}
 }
 
@@ -559,7 +564,11 @@ func (s *Stub) serveNsqd(w http.ResponseWriter, r *http.Request, cl *Cluster, f 
 		if ver == "" {
 			ver = "1.3.0"
 		}
-		writeJSON(w, 200, obj{"version": ver, "broadcast_address": "127.0.0.1", "hostname": s.name,
+		host := s.name
+		if s.cell.sameHost && host == "N3" {
+			host = "N2"
+		}
+		writeJSON(w, 200, obj{"version": ver, "broadcast_address": "127.0.0.1", "hostname": host,
 			"http_port": s.port, "tcp_port": s.port, "start_time": 1})
 	case "/ping":
 		w.Write([]byte("OK"))
